@@ -59,8 +59,16 @@ def main():
 
         def run_demo(tag):
             if demo == 'demo.cpp':
+                # compiled from the same relative place inside the scratch worktree (demos may include "../../src/...")
+                dd = os.path.join(wt, '_seed', a.which)
+                os.makedirs(dd, exist_ok=True)
+                shutil.copyfile(os.path.join(src, demo), os.path.join(dd, demo))
+                try:
+                    os.remove('/tmp/demo-%s' % sid)
+                except OSError:
+                    pass
                 rc, out = sh('g++ -std=c++17 -O1 %s %s -o /tmp/demo-%s %s/_b/src/libteakra.a %s/_b/src/libteakra_c.a -pthread 2>&1 | tail -5' %
-                             (inc, os.path.join(src, demo), sid, wt, wt), timeout=900)
+                             (inc, os.path.join(dd, demo), sid, wt, wt), timeout=900)
                 if not os.path.exists('/tmp/demo-%s' % sid):
                     meta['ran'].append('%s: demo compile failed: %s' % (tag, out[-300:]))
                 rc, out = sh('timeout 900 /tmp/demo-%s 2>&1 | tail -5' % sid)
